@@ -17,7 +17,7 @@ N == Len(Rec)
 VARIABLES l, viol, drift, notes
 vars == <<l, viol, drift, notes>>
 
-Known(e) == e.ev \in {"Verify", "Proof", "Expiry", "History", "HashPair", "HashAlias"}
+Known(e) == e.ev \in {"Verify", "Proof", "Expiry", "ProofExpiry", "ExpiryFine", "History", "HashPair", "HashAlias"}
 When(cond, name) == IF cond THEN {name} ELSE {}
 IsBool(s) == s \in {"true", "false"}
 B(s) == s = "true"
@@ -37,6 +37,18 @@ Falsified(e) ==
     ELSE IF e.ev = "Expiry" THEN
              When((Has(e.exp, "res") /\ e.exp.res # Expired(e.d, 0)) \/ e.dnow > 2 \/ Expired(e.d, 0) # Expired(e.d - e.dnow, 0), "Malformed")
         \cup When(~IsBool(e.res) \/ ~C13_Expiry(e.d, B(e.res)), "C13_Expiry")
+    \* ProofOfPayment::has_expired on a proof whose quotes are dated ds[i] s after the sampled now
+    ELSE IF e.ev = "ProofExpiry" THEN
+             When((Has(e.exp, "res") /\ e.exp.res # (\E i \in DOMAIN e.ds : Expired(e.ds[i], 0))) \/ e.dnow > 2
+                  \/ (\E i \in DOMAIN e.ds : Expired(e.ds[i], 0) # Expired(e.ds[i] - e.dnow, 0)), "Malformed")
+        \cup When(~IsBool(e.res) \/ ~C13_ProofExpiry(e.ds, B(e.res)), "C13_ProofExpiry")
+    \* has_expired on a quote dated ms milliseconds after a now taken with nanoseconds; the driver voids the case when the
+    \* call took so long that the verdict could have changed
+    ELSE IF e.ev = "ExpiryFine" THEN
+        (IF e.void THEN {}
+         ELSE    When((Has(e.exp, "res") /\ e.exp.res # ExpiredMs(e.ms))
+                      \/ (e.ms % 1000 = 0 /\ ExpiredMs(e.ms) # ExpiredMs(e.ms - e.elapsed_ms)), "Malformed")
+            \cup When(e.ms % 1000 = 0 /\ (~IsBool(e.res) \/ ~C13_ExpiryFine(e.ms, B(e.res))), "C13_Expiry"))
     ELSE IF e.ev = "History" THEN
              When(Has(e.exp, "must") /\ e.exp.must # (e.same /\ e.a.ts # e.b.ts /\ HistInconsistent(Older(HOf(e.a), HOf(e.b)), Newer(HOf(e.a), HOf(e.b)))), "Malformed")
         \cup When(~IsBool(e.res) \/ ~C13_History(e.same, HOf(e.a), HOf(e.b), B(e.res)), "C13_History")
@@ -59,7 +71,11 @@ Drifted(e) ==
     ELSE {}
 
 Noted(e) ==
-    IF Known(e) /\ e.ev = "HashAlias" /\ e.heq = "true" THEN {"HashKeySignatureBoundaryAlias"} ELSE {}
+    IF Known(e) /\ e.ev = "HashAlias" /\ e.heq = "true" THEN {"HashKeySignatureBoundaryAlias"}
+    ELSE IF Known(e) /\ e.ev = "ExpiryFine" THEN
+             (When(e.void, "FineExpiryVoidedSlowCall")
+        \cup When(~e.void /\ e.ms % 1000 # 0 /\ IsBool(e.res) /\ B(e.res) # ExpiredMs(e.ms), "ExpiryTruncatesAgeToWholeSeconds"))
+    ELSE {}
 
 Init == l = 1 /\ viol = {} /\ drift = {} /\ notes = {}
 Next == /\ l <= N
